@@ -107,13 +107,14 @@ Lemma subst_ok_model au ps g ev g' ev' rep :
   valid ev = true -> Forall single_ok (e_creates ev) -> c04_first_user_id <= g ->
   room 0 g (e_arg ev ++ e_creates ev) ->
   ps = true \/ cud_refs_arg_free ev ->
+  c04_arg_plain_checked = true \/ arg_fields_closed ev ->
   regenerate_gen au ps g ev = (g', ev', rep) ->
   subst_ok ev (out_obs (Accepted ev' rep)) = true.
 Proof.
-  intros Hv Hs Hg Hr Hsh E.
+  intros Hv Hs Hg Hr Hsh Hpl E.
   destruct (regenerate_passes au ps 0 g ev Hv Hg Hr g' ev' rep E) as (pa & pc & g1 & repc & P).
   pose proof (valid_spec ev Hv) as VF.
-  pose proof (stored_arg au ps 0 g ev Hv Hg g' ev' rep pa pc g1 repc P) as SA.
+  pose proof (stored_arg au ps 0 g ev Hv Hg g' ev' rep pa pc g1 repc P (argrefs_all ev Hv Hpl)) as SA.
   pose proof (stored_creates au ps 0 g ev Hv Hs Hg g' ev' rep pa pc g1 repc P Hsh) as SC.
   pose proof (stored_updates au ps 0 g ev Hv Hs Hg g' ev' rep pa pc g1 repc P Hsh) as SU.
   pose proof (vf_nonnull _ VF) as NN. rewrite Forall_forall in NN.
@@ -152,7 +153,7 @@ Proof.
     + apply Forall_forall. intros r I. cbn. constructor; [|constructor].
       * apply COV. unfold ins, ids. rewrite map_app. apply in_or_app. left. apply in_map. exact I.
       * apply COVK. pose proof (vf_parent _ VF) as PAR. rewrite Forall_forall in PAR. exact (PAR r I).
-      * pose proof (vf_argrefs _ VF) as REFS. rewrite Forall_forall in REFS. eapply Forall_impl; [|exact (REFS r I)]. exact COVK.
+      * pose proof (argrefs_all ev Hv Hpl) as REFS. unfold arg_fields_closed in REFS. rewrite Forall_forall in REFS. eapply Forall_impl; [|exact (REFS r I)]. exact COVK.
     + apply Forall_forall. intros r I.
       pose proof (vf_cudvals _ VF) as CV. rewrite Forall_forall in CV.
       eapply Forall_impl; [|exact (CV r (in_or_app _ _ _ (or_introl I)))]. exact COVA.
@@ -194,12 +195,13 @@ Lemma new_event_ok_model au ps g ev g' ev' rep :
   valid ev = true -> Forall single_ok (e_creates ev) -> c04_first_user_id <= g ->
   room 0 g (e_arg ev ++ e_creates ev) ->
   ps = true \/ cud_refs_arg_free ev ->
+  c04_arg_plain_checked = true \/ arg_fields_closed ev ->
   regenerate_gen au ps g ev = (g', ev', rep) ->
   new_event_ok ev (out_obs (Accepted ev' rep)) = true.
 Proof.
-  intros Hv Hs Hg Hr Hsh E. unfold new_event_ok, out_obs. cbn [o_newids o_arg o_creates].
+  intros Hv Hs Hg Hr Hsh Hpl E. unfold new_event_ok, out_obs. cbn [o_newids o_arg o_creates].
   destruct (e_sync ev) eqn:S; [reflexivity|]. cbn [orb].
-  destruct (substitution_proved au ps g ev g' ev' rep Hv Hs Hg Hr Hsh E) as (m & _ & _ & SA & SC & _ & _ & REP & SING & _).
+  destruct (substitution_proved au ps g ev g' ev' rep Hv Hs Hg Hr Hsh Hpl E) as (m & _ & _ & SA & SC & _ & _ & REP & SING & _).
   rewrite SA, SC, <- map_app. apply issued_ok_map. intros r I.
   pose proof (vf_raw _ (valid_spec ev Hv) S) as RAW. rewrite Forall_forall in RAW. specialize (RAW r I).
   apply in_app_or in I. destruct I as [I|I].
@@ -221,6 +223,8 @@ Qed.
 
 Definition f12_free (h : list iop) : Prop := forall ws ev, In (IEvent ws ev) h -> cud_refs_arg_free ev.
 (* explicit IDs of sync clients lie above the singleton band *)
+(* the F46 exclusion: every RecordID field of the argument rows is closed over the argument's own IDs *)
+Definition args_closed (h : list iop) : Prop := forall ws ev, In (IEvent ws ev) h -> arg_fields_closed ev.
 Definition explicit_apart (h : list iop) : Prop := forall ws ev, In (IEvent ws ev) h -> explicit_above_singletons ev.
 (* no explicit IDs at all (only needed for the code without the pre-pass over explicit IDs, F43) *)
 Definition explicit_free (h : list iop) : Prop :=
@@ -284,9 +288,10 @@ Lemma model_satisfies_gen au ps : forall h K st,
   singles_ok h -> au = true \/ arg_ids_raw h -> ps = true \/ f12_free h ->
   explicit_apart h -> c04_sync_prepass = true \/ explicit_free h ->
   c04_singleton_slot_guard = true -> (forall ws, logq (st ws)) ->
+  c04_arg_plain_checked = true \/ args_closed h ->
   satisfies_from (fun k => w_log (st k)) (model_trace_gen au ps st h) = true.
 Proof.
-  induction h as [|[ws0 ev|] t IH]; intros K st HI HU HB HS HA HF HX HP SG HQ; [reflexivity| |].
+  induction h as [|[ws0 ev|] t IH]; intros K st HI HU HB HS HA HF HX HP SG HQ HPL; [reflexivity| |].
   - cbn [model_trace_gen satisfies_from]. cbn [hist_rows hist_ids] in HI, HB.
     apply Forall_app in HB. destruct HB as [HB1 HB2].
     assert (HS0 : Forall single_ok (e_creates ev)) by (apply (HS ws0 ev); left; reflexivity).
@@ -304,6 +309,10 @@ Proof.
     assert (HP0 : forall g0, c04_sync_prepass = true \/ explicit_below g0 ev).
     { intros g0. destruct HP as [PP|FR]; [left; exact PP|right]. unfold explicit_below.
       eapply Forall_impl; [|exact (FR ws0 ev (or_introl eq_refl))]. cbn. intros r R C. congruence. }
+    assert (HPLt : c04_arg_plain_checked = true \/ args_closed t).
+    { destruct HPL as [PC|CL]; [left; exact PC|right]. intros a b I. apply (CL a b). right. exact I. }
+    assert (HPL0 : c04_arg_plain_checked = true \/ arg_fields_closed ev).
+    { destruct HPL as [PC|CL]; [left; exact PC|right; apply (CL ws0 ev); left; reflexivity]. }
     assert (HF0 : ps = true \/ cud_refs_arg_free ev).
     { destruct HF as [PS|FR]; [left; exact PS|right; apply (FR ws0 ev); left; reflexivity]. }
     destruct (step_event_gen au ps (st ws0) ev) as [w' o] eqn:E. cbn [fst snd].
@@ -325,7 +334,7 @@ Proof.
     { intros ws. destruct (N.eq_dec ws ws0) as [->|NE].
       - rewrite upd_same. exact (step_event_logq au ps _ (st ws0) ev w' o I0 B0 HS0 HX0 (HQ ws0) E).
       - rewrite upd_other by exact NE. apply HQ. }
-    specialize (IH K (upd st ws0 w') HI' HU' HB' HSt HAt HFt HXt HPt SG HQ').
+    specialize (IH K (upd st ws0 w') HI' HU' HB' HSt HAt HFt HXt HPt SG HQ' HPLt).
     destruct o as [|ev' rep]; cbn [out_obs o_ok].
     + (* rejected: nothing stored *)
       assert (W : w' = st ws0).
@@ -340,9 +349,9 @@ Proof.
       pose proof (step_room (N.of_nat (hist_rows t) + K) (st ws0) ev I0' B0) as RM.
       assert (RM0 : room 0 (w_next (st ws0)) (e_arg ev ++ e_creates ev)).
       { destruct RM as [R1 R2]. split; [lia|]. eapply Forall_impl; [|exact R2]. cbn. intros; lia. }
-      pose proof (subst_ok_model au ps _ ev _ ev' rep Hv HS0 A0 RM0 HF0 RG) as SO. cbn [out_obs] in SO.
+      pose proof (subst_ok_model au ps _ ev _ ev' rep Hv HS0 A0 RM0 HF0 HPL0 RG) as SO. cbn [out_obs] in SO.
       rewrite SO. cbn [andb].
-      pose proof (new_event_ok_model au ps _ ev _ ev' rep Hv HS0 A0 RM0 HF0 RG) as NE. cbn [out_obs] in NE.
+      pose proof (new_event_ok_model au ps _ ev _ ev' rep Hv HS0 A0 RM0 HF0 HPL0 RG) as NE. cbn [out_obs] in NE.
       rewrite NE. cbn [andb].
       (* freshness *)
       destruct (regenerate_passes au ps 0 (w_next (st ws0)) ev Hv A0 RM0 _ _ _ RG) as (pa & pc & g1 & repc & P).
@@ -360,7 +369,7 @@ Proof.
           exact (stored_ids_distinct_proved au ps _ ev _ ev' rep Hv HS0 A0 RM0 HX0 (HP0 _) RG). }
       rewrite FR. cbn [andb o_creates o_arg].
       assert (AF : assigned_fresh (w_log (st ws0)) (e_arg ev ++ e_creates ev) (e_arg ev' ++ e_creates ev') = true).
-      { destruct (substitution_proved au ps _ ev _ ev' rep Hv HS0 A0 RM0 HF0 RG) as (m & _ & _ & SA & SC & _ & _ & REP & SING & _).
+      { destruct (substitution_proved au ps _ ev _ ev' rep Hv HS0 A0 RM0 HF0 HPL0 RG) as (m & _ & _ & SA & SC & _ & _ & REP & SING & _).
         rewrite SA, SC, <- map_app. apply assigned_fresh_map. intros r I R J.
         assert (GEN : In (r_id r, m (r_id r)) rep -> False).
         { intros IN. apply (in_map snd) in IN. cbn in IN. pose proof (chain_bounds _ _ _ CH _ IN) as [L _].
@@ -388,16 +397,18 @@ Proof.
     assert (HPt : c04_sync_prepass = true \/ explicit_free t).
     { destruct HP as [PP|FR]; [left; exact PP|right]. intros a b I. apply (FR a b). right. exact I. }
     assert (HQ' : forall ws, logq (recover (st ws))) by (intros ws; exact (HQ ws)).
-    rewrite <- (IH K (fun k => recover (st k)) HI' HU' HB HSt HAt HFt HXt HPt SG HQ'). apply satisfies_from_ext. intros k. reflexivity.
+    assert (HPLt : c04_arg_plain_checked = true \/ args_closed t).
+    { destruct HPL as [PC|CL]; [left; exact PC|right]. intros a b I. apply (CL a b). right. exact I. }
+    rewrite <- (IH K (fun k => recover (st k)) HI' HU' HB HSt HAt HFt HXt HPt SG HQ' HPLt). apply satisfies_from_ext. intros k. reflexivity.
 Qed.
 
 Theorem model_satisfies_proved : forall au ps h,
   bounded h -> singles_ok h -> au = true \/ arg_ids_raw h -> ps = true \/ f12_free h ->
   explicit_apart h -> c04_sync_prepass = true \/ explicit_free h ->
-  c04_singleton_slot_guard = true ->
+  c04_singleton_slot_guard = true -> c04_arg_plain_checked = true \/ args_closed h ->
   satisfies (model_trace_gen au ps st_init h) = true.
 Proof.
-  intros au ps h [B1 B2] HS HA HF HX HP SG. unfold satisfies.
+  intros au ps h [B1 B2] HS HA HF HX HP SG HPL. unfold satisfies.
   rewrite (satisfies_from_ext _ (fun _ => []) (fun k => w_log (st_init k))) by reflexivity.
   apply (model_satisfies_gen au ps h 0); try assumption.
   - intros ws. apply init_inv. lia.
@@ -700,4 +711,18 @@ Proof.
   intros au ps w ev w' ev' rep SG E r I NZ J. destruct (step_event_slot au ps w ev _ _ _ E) as (SF & _).
   unfold slot_free, slot_free_gen in SF. rewrite SG in SF. rewrite forallb_forall in SF. specialize (SF r I).
   apply N.eqb_neq in NZ. rewrite NZ in SF. cbn in SF. apply negb_true_iff in SF. apply memb_false in SF. contradiction.
+Qed.
+
+Definition arg_fields_closedb (ev : event) : bool :=
+  forallb (fun r => forallb (known_or_not_raw (ids (e_arg ev))) (r_refs r)) (e_arg ev).
+Lemma arg_fields_closedb_sound ev : arg_fields_closedb ev = true -> arg_fields_closed ev.
+Proof.
+  unfold arg_fields_closedb, arg_fields_closed. intros H. apply forallb_Forall in H. eapply Forall_impl; [|exact H].
+  cbn. intros r Hr. apply forallb_Forall in Hr. eapply Forall_impl; [|exact Hr]. cbn. intros v Hv. apply known_or_not_raw_spec. exact Hv.
+Qed.
+Definition args_closedb (h : list iop) : bool :=
+  forallb (fun o => match o with IEvent _ ev => arg_fields_closedb ev | IRestart => true end) h.
+Lemma args_closedb_sound h : args_closedb h = true -> args_closed h.
+Proof.
+  unfold args_closedb, args_closed. rewrite forallb_forall. intros H ws ev I. apply arg_fields_closedb_sound. exact (H _ I).
 Qed.
